@@ -174,6 +174,13 @@ eng_reinit(void)
                 do {
                         c2 = (int) rng_below(&r, 4) * 4 + (c1 & 3);
                 } while (g_cfg_variant[c2] < 0);
+                /* ... unless the flags are replaced through imb_set_pointers_mb_mgr(mgr, flags, 0) before the init call
+                 * (one history in three): then any configuration may follow */
+                const int reflag = rng_below(&r, 3) == 0;
+                if (reflag)
+                        do {
+                                c2 = (int) rng_below(&r, NCFG);
+                        } while (g_cfg_variant[c2] < 0);
                 struct mmgr *mm = mm_new(c1);
                 if (!mm)
                         continue;
@@ -225,6 +232,11 @@ eng_reinit(void)
                 int inflight = mm->count;
                 n_inflight += (uint64_t) inflight;
                 /* ---- re-initialise in place (possibly to another variant) */
+                if (reflag) {
+                        mcall("imb_set_pointers_mb_mgr", (void *) imb_set_pointers_mb_mgr, 3, (uint64_t) mm->m, (uint64_t) g_cfgs[c2].flags,
+                              (uint64_t) 0);
+                        cov_hit("C15", "reflag|%s|%s", g_cfgs[c1].name, g_cfgs[c2].name);
+                }
                 mm_reinit(mm, c2);
                 n_reinits++;
                 char key[200], det[300];
